@@ -142,6 +142,28 @@ class C09(ProtoSpec):
         return bool(mon.np) or bool(mon.mb)
 
 
+class C09TwoApps(C09):
+    """two apps with channels of different ages: a sweep prunes one app's channel and keeps the other's;
+    every frame afterwards must still be over committed state"""
+
+    def configure(self, tier):
+        P, E = P_E()
+        self.cfg = dict(storage="file", usage=self.usage)
+        binds = [[("X", "A")], [("Y", "A")], [("X", "A"), ("Y", "A"), ("Z", "A")], [("X", "B"), ("Y", "B")]]
+        self.driver = Driver(binds, names=("1",), mids=("m",), msgs=(("p", "00", "i1"),),
+                             kinds=("bind", "claim", "open", "add", "list", "drop"), ticks=(P, 2 * P), max_ticks=2,
+                             max_adds=1, max_drops=1, max_conns=3 if tier == "quick" else 4)
+        self.depth = 3 if tier == "quick" else 5
+
+    def seeds(self):
+        P, E = P_E()
+        a = [("cbind", 0, "X", "A"), ("open", 0, "m"), ("add", 0, "p", "00", "i1"), ("drop", 0), ("tick", P),
+             ("cbind", 1, "Y", "A"), ("claim", 1, "1")]
+        b = [("cbind", 0, "X", "A"), ("claim", 0, "1"), ("tick", P), ("cbind", 1, "Y", "A"), ("open", 1, "m"),
+             ("drop", 0)]
+        return [a, b]
+
+
 RULE = ("BFS over every history of allocate/claim/release/open/add/close/list by 3 sides (so the crowded paths exist) "
         "with sweeps, on file-backed databases, with and without a usage database; the oracle runs inside sendMessage: at "
         "each outbound frame a brand-new sqlite3 connection to each database file must read exactly what the server's own "
@@ -150,6 +172,8 @@ RULE = ("BFS over every history of allocate/claim/release/open/add/close/list by
 
 
 def make_spec(tier, name=None):
+    if name and name.startswith("c09-twoapps"):
+        return C09TwoApps(tier, usage=name.endswith("-usage"))
     return C09(tier, usage=(name == "c09-usage"))
 
 
@@ -158,6 +182,9 @@ def run(pid, tier, seed, args):
     b = 50 if tier == "quick" else 900
     specs = [("c09", make_spec(tier, "c09"), None, b), ("c09-usage", make_spec(tier, "c09-usage"), None, b)]
     specs = [(n, s, s.depth if tier != "quick" or n == "c09" else s.depth - 1, bb) for (n, s, _, bb) in specs]
+    for n in ("c09-twoapps", "c09-twoapps-usage"):
+        sp = make_spec(tier, n)
+        specs.append((n, sp, sp.depth, b / 2))
     return run_specs(pid, tier, seed, args, specs, rule=RULE,
                      assumptions=["durability below commit granularity (unsynced blocks on power loss) is delegated to SQLite "
                                   "via the asserted pragmas"])
